@@ -373,8 +373,17 @@ func (f *FileSnapshotStore) ReapSnapshots() error {
 	for i := f.retain; i < len(snapshots); i++ {
 		path := filepath.Join(f.path, snapshots[i].ID)
 		f.logger.Info("reaping snapshot", "path", path)
-		if err := os.RemoveAll(path); err != nil {
+		// Removing a directory tree is not atomic. Move the snapshot to a
+		// temporary name first (List ignores those), so that a crash halfway
+		// through cannot leave a snapshot that is still listed but has already
+		// lost its state file.
+		reapPath := path + tmpSuffix
+		if err := os.Rename(path, reapPath); err != nil {
 			f.logger.Error("failed to reap snapshot", "path", path, "error", err)
+			return err
+		}
+		if err := os.RemoveAll(reapPath); err != nil {
+			f.logger.Error("failed to reap snapshot", "path", reapPath, "error", err)
 			return err
 		}
 	}
